@@ -83,6 +83,17 @@ Inductive fres :=
 | FErr (e : ferr)
 | FNeedMore.
 
+(* a decided result when more input follows: only the undecoded remainder grows *)
+Definition extend (r : fres) (more : bytes) : fres :=
+  match r with FOk p rest => FOk p (rest ++ more) | x => x end.
+
+Fixpoint beq_list (a b : list bytes) : bool :=
+  match a, b with
+  | [], [] => true
+  | x :: a', y :: b' => beq_bytes x y && beq_list a' b'
+  | _, _ => false
+  end.
+
 Section Codec.
   (* compress/zlib: Writer at a level (Reset; Write p; Close) and Reader *)
   Variable deflate : Z -> bytes -> bytes.
@@ -240,6 +251,108 @@ Section Codec.
   (* every successful Decode consumes at least one byte, so length s + 1 calls always reach the end *)
   Definition decode_stream_flat (df : cfg -> bytes -> list N * fres) (c : cfg) (s : bytes) : list bytes * term :=
     decode_stream_with df (S (length s)) c s.
+
+  (* two runs of Decode calls agree: same payloads in the same order, and they stop the same way up to the
+     kind of error *)
+  Definition term_same (a b : term) : bool :=
+    match a, b with
+    | TNeedMore, TNeedMore => true
+    | TErr _, TErr _ => true
+    | TFuel, TFuel => true
+    | _, _ => false
+    end.
+  Definition stream_same (a b : list bytes * term) : bool :=
+    beq_list (fst a) (fst b) && term_same (snd a) (snd b).
+
+  (* ---------- C01: the premises of the round trip, decidable (the judge evaluates the same terms) ---------- *)
+
+  (* Encoder.Write's documented precondition: the payload starts with its packet-id VarInt *)
+  Definition starts_with_id (p : bytes) : bool :=
+    match read_varint p with VVal _ _ _ => true | _ => false end.
+
+  (* the decoder's own limits: the frame body the writer produces fits 2^21-1 bytes and, when the payload
+     is compressed, the payload fits the reader's direction cap *)
+  Definition fitsb (t lvl : Z) (d : dir) (p : bytes) : bool :=
+    if (t <? 0)%Z then (Z.of_N (len p) <=? MAXFRAME)%Z
+    else if (Z.of_N (len p) <? t)%Z then (Z.of_N (len p) + 1 <=? MAXFRAME)%Z
+    else (Z.of_N (len (write_varint (Z.of_N (len p)) ++ deflate lvl p)) <=? MAXFRAME)%Z
+         && (Z.of_N (len p) <=? cap d)%Z.
+
+  (* ---------- C02: what "minimally encoded length prefix" means, and agreement up to the error kind ---------- *)
+
+  (* the prefix in front of s is decided by both prefix readers alike: complete and minimal (re-encoding the
+     value gives the same bytes), or fewer than three continuation bytes so far, or over-long for both *)
+  Definition minimal_prefix (s : bytes) : bool :=
+    match read_varint s with
+    | VVal l n _ => beq_bytes (firstn (N.to_nat n) s) (write_varint l)
+    | VShort => Nat.ltb (length s) 3
+    | VTooBig => true
+    end.
+
+  (* q holds in front of every frame the repaired decoder walks over (fuel: one per frame) *)
+  Fixpoint walk_all (fuel : nat) (q : bytes -> bool) (c : cfg) (s : bytes) : bool :=
+    match fuel with
+    | O => true
+    | S fuel' =>
+      q s &&
+      match snd (fixed_decode_frame c s) with
+      | FOk _ rest => match s with [] => true | _ => walk_all fuel' q c rest end
+      | _ => true
+      end
+    end.
+  (* every frame of the stream has a minimal length prefix *)
+  Definition minimal_stream (c : cfg) (s : bytes) : bool := walk_all (S (length s)) minimal_prefix c s.
+
+  (* same accept / reject / wait decision, same payload and same remaining bytes; error kinds may differ *)
+  Definition same_decision (a b : fres) : bool :=
+    match a, b with
+    | FOk p r, FOk p' r' => beq_bytes p p' && beq_bytes r r'
+    | FErr _, FErr _ => true
+    | FNeedMore, FNeedMore => true
+    | _, _ => false
+    end.
+
+  (* inputs of the two recorded findings, at frame level: the frame is complete and well-sized and
+     (1) claims a negative size with a body that fits the threshold, or
+     (2) claims a size within [threshold, cap] that the body's inflation does not meet exactly although it
+         yields at least that many bytes and Close stays silent *)
+  Definition frame_body (s : bytes) : option bytes :=
+    match read_varint s with
+    | VVal l _ rest =>
+      if (0 <? l)%Z && (l <=? MAXFRAME)%Z && (Z.to_N l <=? len rest) then Some (firstn (Z.to_nat l) rest) else None
+    | _ => None
+    end.
+
+  Definition trigger1 (c : cfg) (s : bytes) : bool :=
+    (0 <=? c_thr c)%Z &&
+    match frame_body s with
+    | Some body =>
+      match read_varint body with
+      | VVal claimed _ zb => (claimed <? 0)%Z && (Z.of_N (len zb) <=? c_thr c)%Z
+      | _ => false
+      end
+    | None => false
+    end.
+
+  Definition trigger2 (c : cfg) (s : bytes) : bool :=
+    (0 <=? c_thr c)%Z &&
+    match frame_body s with
+    | Some body =>
+      match read_varint body with
+      | VVal claimed _ zb =>
+        (0 <? claimed)%Z && (c_thr c <=? claimed)%Z && (claimed <=? cap (c_dir c))%Z &&
+        let r := inflate zb in
+        (Z.to_N claimed <=? len (z_out r)) &&
+        negb (z_clean r && (len (z_out r) =? Z.to_N claimed)) &&
+        (z_clean r || lazy_close_ok zb (Z.to_N claimed))
+      | _ => false
+      end
+    | None => false
+    end.
+
+  (* no frame of the stream is an input of one of the two recorded findings *)
+  Definition untriggered_stream (c : cfg) (s : bytes) : bool :=
+    walk_all (S (length s)) (fun s' => negb (trigger1 c s') && negb (trigger2 c s')) c s.
 
   (* ---------- the reader stack: conn.Read chunks -> bufio -> (decrypt) -> fullReader ---------- *)
 
